@@ -521,6 +521,15 @@ package hclsyntax
 //@ loopall invariant srcBytes: forall q *byte :: { deref(q) } existed(q) ==> deref(q) == old(deref(q))
 //@ loop 1 invariant decoded: len(diags) > 0 || litDecodes - old(litDecodes) == quotedRead - old(quotedRead)
 
+// ---- names in the syntax tree are the decoded source text (unit U12d, C02) ----
+// verif:unit U12d props=C02
+// Block types, labels and attribute names are exposed exactly as written: the only transformation
+// between the source and the tree is the escape decoder. cty string values are NFC-normalised, so a
+// name that takes a detour through a cty value and back (Value.AsString) is no longer the text that
+// was written. File-wide rule for the structural parser: no function of parser.go reads a string
+// back out of a cty value.
+// verif:filecalls parser.go AsString noCtyDetour: false
+
 // ---- no spurious rejection of an argument definition (unit U12c, C02) ----
 // verif:unit U12c props=C02,C15
 // C02: every legal rendering is accepted. The contract-sized part: the functions that parse an
